@@ -21,7 +21,7 @@ from mc.spaces import split_list
 ID = "C02"
 MANIFEST = {"engine": "E1"}
 STATES = ((), ("do",), ("shift",), ("noise",), ("do", "shift"), ("do", "noise"), ("do", "shift", "noise"))
-FAMILIES = ("F1", "F2", "F3", "F4")
+FAMILIES = ("F1", "F2", "F3", "F4", "F5")
 
 
 def units(tier, seed):
@@ -29,14 +29,14 @@ def units(tier, seed):
     for p in (1, 2, 3):
         dags = [c for c, _ in SP.dag_list(p)]
         for part in split_list(dags, 25 if p == 3 else 1):
-            out.append({"p": p, "codes": part, "labs": ["bin", "cancel", "generic"], "fams": list(FAMILIES), "ns": [0, 1, 3], "src": ["none", "null"]})
+            out.append({"p": p, "codes": part, "labs": ["bin", "cancel", "generic", "tiny"], "fams": list(FAMILIES), "ns": [0, 1, 3], "src": ["none", "null"]})
     dags4 = [c for c, _ in SP.dag_list(4)]
     if tier == "quick":
         for part in split_list(dags4[::25], 22):
-            out.append({"p": 4, "codes": part, "labs": ["cancel"], "fams": ["F1", "F3"], "ns": [2], "src": ["none"]})
+            out.append({"p": 4, "codes": part, "labs": ["cancel"], "fams": ["F1", "F3", "F5"], "ns": [2], "src": ["none"]})
     else:
         for part in split_list(dags4, 272):
-            out.append({"p": 4, "codes": part, "labs": ["cancel", "generic"], "fams": ["F1", "F2", "F3", "F4"], "ns": [2], "src": ["none"]})
+            out.append({"p": 4, "codes": part, "labs": ["cancel", "generic"], "fams": ["F1", "F2", "F3", "F4", "F5"], "ns": [2], "src": ["none"]})
     # wide graphs (10 nodes, parent sets mixing indices below and above 8): column order of the parents
     out.append({"wide": "targeted"})
     for part in split_list(_g.wide_sparse_codes("dag"), 8):
@@ -87,6 +87,16 @@ class Recorder:
         def f4(x):
             rec.inputs.setdefault(node, []).append(np.array(x, copy=True))
             return 2.5                        # scalar
+        def f5(x):
+            # an assignment that uses its argument as scratch space: the parents' sampled values must not depend on what a callable does to
+            # the array it was handed
+            rec.inputs.setdefault(node, []).append(np.array(x, copy=True))
+            out = sum((10.0 ** k) * x[:, k] for k in range(x.shape[1])) if x.shape[1] else 0
+            if isinstance(x, np.ndarray) and x.flags.writeable:
+                x[...] = -77.0
+            return out
+        if fam == "F5":
+            return f5
         if fam == "F2" and npar == 1:
             return f2
         if fam == "F3":
@@ -277,9 +287,9 @@ def describe(tier, seed):
     return {
         "technique": "exhaustive small-scope enumeration of (graph, assignment family, intervention assignment, n) on the real ANM with a recorded "
                      "environment (deterministic noise / intervention stand-ins), rows re-derived with the checker's own parent sets",
-        "rule": "every labelled DAG p<=3 x {0/1 int, cancelling, generic} weights x 4 assignment families (positional-linear sum 10^k x_k, (n,1)-column-returning, "
+        "rule": "every labelled DAG p<=3 x {0/1 int, cancelling, generic} weights x 5 assignment families (positional-linear sum 10^k x_k, the same sum from a callable that afterwards overwrites the array it was handed, (n,1)-column-returning, "
                 "piecewise-linear non-symmetric, scalar-returning) x sources given as None / functions.null x all 7^p assignments of {none, do, shift, noise, do+shift, "
-                "do+noise, do+shift+noise} x n in {0,1,3}; p=4: every %s DAG with cancelling weights, 2 families, 7^4 assignments, n=2; wide graphs: 80 targeted 10-node colliders whose parents mix node "
+                "do+noise, do+shift+noise} x n in {0,1,3}; p=4: every %s DAG with cancelling weights, 3 families, 7^4 assignments, n=2; wide graphs: 80 targeted 10-node colliders whose parents mix node "
                 "indices below and above 8 x 2 labelings x 2 families x 6 intervention patterns, and every 10-node DAG with <=2 edges. Oracle: shape (n,p); a do-target "
                 "equals a draw of its do stand-in; otherwise column == f(final parent columns in increasing index) + original (+shift) / replacing noise draw, exactly; the "
                 "array each assignment received is the final parent columns. non-trivial: n>0, at least one edge and one intervention" % ("25th" if tier == "quick" else ""),
